@@ -28,7 +28,10 @@ RULE = (
     "tetrahedral / E,Z molecules. For a drawn atom permutation pi and root "
     "atom: conv(RenumberAtoms(mol, pi)) == conv(mol) and "
     "conv(reparse(MolToSmiles(RenumberAtoms(mol, pi), canonical=False, "
-    "rootedAtAtom=k))) == conv(mol), with equal hashes, for the 8 "
+    "rootedAtAtom=k))) == conv(mol), with equal hashes (pi uniformly random, "
+    "or random within the classes of equal element and degree so that both "
+    "molecules look alike index by index; one converter object serves all "
+    "imports of a case), for the 8 "
     "combinations of stereo_complete x lone_pair_stereo x resonance; with "
     "positive injective atom-map numbers the map-number import equals the "
     "index import relabelled index->map in the model, also for "
@@ -88,9 +91,23 @@ def gen(data: bytes):
                                    1 + tp.below(rdgen.NLABEL[kind]))
     mol = rdgen.mol_from_smiles(smi)
     n = mol.GetNumAtoms() if mol is not None else 1
-    return {"kind": "respell", "smiles": smi, "perm": tp.shuffle(range(n)),
+    case = {"kind": "respell", "smiles": smi, "perm": tp.shuffle(range(n)),
             "root": tp.below(n), "opts": list(tp.pick(OPTS)),
             "maps": [1 + x for x in tp.shuffle(range(n + 5))[:n]]}
+    if mol is not None and tp.chance(70):
+        # a renumbering that leaves (element, degree) unchanged at every
+        # index: the two molecules look alike index by index, anything the
+        # (reused) converter remembers about the first one fits the second
+        groups = {}
+        for a in mol.GetAtoms():
+            groups.setdefault((a.GetSymbol(), a.GetDegree()),
+                              []).append(a.GetIdx())
+        perm = list(range(n))
+        for idxs in groups.values():
+            for i, j in zip(idxs, tp.shuffle(idxs)):
+                perm[i] = j
+        case["perm"] = perm
+    return case
 
 
 def _stereo_atoms(mol):
